@@ -15,7 +15,8 @@ def token_collisions(args):
     import random
     import srvworld as SW
     rnd = random.Random(seed)
-    space = [struct.pack(">L", 0x40000000 | v) for v in (11, 22, 33, 44)]
+    # raw draws: the same low bits under every pair of top bits (the token is the draw with bit 31 cleared and bit 30 set, so all four collide)
+    space = [struct.pack(">L", top | v) for v in (11, 22, 33, 44) for top in (0x40000000, 0x00000000, 0x80000000, 0xC0000000)]
 
     def urandom(n):
         return rnd.choice(space) if n == 4 else os.urandom(n)
